@@ -24,6 +24,7 @@ struct Conf {
   bool keep_hills, well_tempered, expand;
   double lower, upper;        // grid of d
   bool rebin = false;         // restart onto a narrower grid [1.5,2.5] with rebinGrids on (keepHills)
+  int hard = 0;               // 1: hardLowerBoundary on (only); 2: hardUpperBoundary on (only) - the other side can be left
   bool gridblock = false;     // the grid [lower,upper] is given by a grid { } block of the bias; the variables' own boundaries are narrower
 };
 
@@ -35,7 +36,7 @@ static std::string conf_text(Conf const &c, bool rebinned = false)
   } else if (c.kind == 3) {
     s += "colvar {\n name d\n width 0.5\n distanceVec {\n group1 { atomNumbers 1 }\n group2 { atomNumbers 2 }\n }\n}\n";
   } else {
-    s += "colvar {\n name d\n width 0.5\n lowerBoundary " + num(rebinned || c.gridblock ? 1.5 : c.lower) + "\n upperBoundary " + num(rebinned || c.gridblock ? 2.5 : c.upper) + "\n" + (c.expand ? " expandBoundaries on\n" : "") +
+    s += "colvar {\n name d\n width 0.5\n lowerBoundary " + num(rebinned || c.gridblock ? 1.5 : c.lower) + "\n upperBoundary " + num(rebinned || c.gridblock ? 2.5 : c.upper) + "\n" + (c.expand ? " expandBoundaries on\n" : "") + (c.hard == 1 ? " hardLowerBoundary on\n" : "") + (c.hard == 2 ? " hardUpperBoundary on\n" : "") +
          " distance {\n group1 { atomNumbers 1 }\n group2 { atomNumbers 2 }\n }\n}\n";
   }
   if (c.kind == 2)
@@ -110,9 +111,13 @@ struct RefMeta {
   }
 };
 
+// the value a letter stands for: with a hard LOWER boundary the variable cannot be below the grid, the "just below" letter
+// then stands for a value above the (open) upper boundary, so that the quick alphabet also leaves the grid there
+static double val_of(Conf const &c, int letter) { return (c.hard == 1 && letter == 4) ? 3.3 : VAL[letter]; }
+
 static std::vector<double> value_of(Conf const &c, int letter, long s)
 {
-  double v = VAL[letter];
+  double v = val_of(c, letter);
   std::vector<double> x;
   if (c.kind == 1) x = {v - 2.0 * std::floor(v / 2.0)};
   else if (c.kind == 2) x = {v, (s % 3 == 1) ? 1.7 : 1.25};
@@ -123,7 +128,7 @@ static std::vector<double> value_of(Conf const &c, int letter, long s)
 static void place(vproxy &px, Conf const &c, int letter, long s)
 {
   px.x[0] = cvm::rvector(0, 0, 0);
-  px.x[1] = cvm::rvector(VAL[letter], c.kind == 3 ? 0.3 * (s % 2) : 0.0, 0);
+  px.x[1] = cvm::rvector(val_of(c, letter), c.kind == 3 ? 0.3 * (s % 2) : 0.0, 0);
   px.x[2] = cvm::rvector(0, 3, 0);
   px.x[3] = cvm::rvector((s % 3 == 1) ? 1.7 : 1.25, 3, 0);
 }
@@ -149,8 +154,10 @@ int main(int argc, char **argv)
       {"nogrids-distanceVec", 3, false, 1, 0, 0, 0.4, false, false, false, 0, 0},
       {"grids-expandBoundaries", 0, true, 1, 0, 1.0, 0, false, false, true, 1.0, 3.0},
       {"grids-keepHills-rebin-narrower", 0, true, 1, 0, 1.0, 0, true, false, false, -4.0, 9.0, true},
-      {"grids-from-a-grid-block", 0, true, 1, 0, 1.0, 0, false, false, false, 1.0, 3.0, false, true},
-      {"grids-2d-from-a-grid-block", 2, true, 1, 0, 2.0, 0, false, false, false, 1.0, 3.0, false, true},
+      {"grids-hardLowerBoundary-only", 0, true, 1, 0, 1.0, 0, false, false, false, 0.0, 3.0, false, 1},
+      {"grids-hardUpperBoundary-only-hw2", 0, true, 1, 0, 2.0, 0, false, false, false, 1.0, 3.5, false, 2},
+      {"grids-from-a-grid-block", 0, true, 1, 0, 1.0, 0, false, false, false, 1.0, 3.0, false, 0, true},
+      {"grids-2d-from-a-grid-block", 2, true, 1, 0, 2.0, 0, false, false, false, 1.0, 3.0, false, 0, true},
   };
   long nw = 1;
   for (int i = 0; i < L; i++) nw *= NL;
@@ -180,7 +187,7 @@ int main(int argc, char **argv)
           for (int i = 0; i < L; i++) { word[i] = q % NL; q /= NL; }
         }
         std::string wj = "[";
-        for (int i = 0; i < L; i++) wj += (i ? "," : "") + num(VAL[word[i]]);
+        for (int i = 0; i < L; i++) wj += (i ? "," : "") + num(val_of(c, word[i]));
         wj += "]";
         for (int mode = 0; mode <= 2; mode++)
           for (int K = (mode ? 1 : 0); K < (mode ? L - 1 : 1); K++) {
